@@ -1,7 +1,340 @@
+/-
+Driver for property C13 (generator: applying an adjustment to an OCI spec).
+
+in  = {kind, spec, adjust, ext, runs}     (harness/c13/types.go: SpecJ, AdjJ, ExtJ)
+obs = {outs:[{err, spec, n}], runs, restSame, panic}
+      the DISTINCT results of `runs` fresh applications of the real generator.
+
+agree : the implementation produced exactly one result and it equals the model's
+        (`Nri.Generate.adjust`, the repaired code); in addition the model is run under every
+        permutation of the annotation and unified map entries (≤ 5 entries, else rotations)
+        and must give one answer.
+spec  : `Nri.Generate.Check.checkAll` on every successful result + determinism + untouched
+        rest of the spec + legitimate error class, evaluated on the implementation's output.
+-/
 import Driver.Common
-open Lean Drv
+import NriModel.Generate
+import NriModel.Lemmas.GenerateSpec
+open Lean Drv Nri Nri.Api Nri.Generate
+
 namespace Drv.C13
-/-- placeholder until the property's driver is written -/
-def judge (_ : Json) : Except String Verdict := .error "C13 driver not implemented"
+
+/-! ### decoding -/
+
+def oJson (j : Json) (k : String) : Option Json := getOpt j k
+def oInt (j : Json) (k : String) : Except String (Option Int) :=
+  match getOpt j k with | none => pure none | some v => do pure (some (← v.getInt?))
+def oNat (j : Json) (k : String) : Except String (Option Nat) :=
+  match getOpt j k with | none => pure none | some v => do pure (some (← v.getNat?))
+def oBool (j : Json) (k : String) : Except String (Option Bool) :=
+  match getOpt j k with | none => pure none | some v => do pure (some (← v.getBool?))
+def oStr (j : Json) (k : String) : Except String (Option Str) :=
+  match getOpt j k with | none => pure none | some v => do pure (some (S (← v.getStr?)))
+def strs (j : Json) (k : String) : Except String (List Str) := do pure ((← getStrList j k).map S)
+def strMap (j : Json) (k : String) : Except String (AList Str Str) := do
+  pure ((← getStrMap j k).map fun (a, b) => (S a, S b))
+def sField (j : Json) (k : String) : Except String Str := do pure (S (← getStr j k))
+def arr (j : Json) (k : String) (f : Json → Except String α) : Except String (List α) := do
+  (← getArr j k).mapM f
+
+def decOciMount (j : Json) : Except String Oci.Mount := do
+  pure { destination := ← sField j "destination", type := ← sField j "type",
+         source := ← sField j "source", options := ← strs j "options" }
+def decApiMount (j : Json) : Except String Api.Mount := do
+  pure { destination := ← sField j "destination", type := ← sField j "type",
+         source := ← sField j "source", options := ← strs j "options" }
+def decOciDevice (j : Json) : Except String Oci.Device := do
+  pure { path := ← sField j "path", type := ← sField j "type", major := ← getInt j "major",
+         minor := ← getInt j "minor", fileMode := ← oNat j "fileMode", uid := ← oNat j "uid",
+         gid := ← oNat j "gid" }
+def decApiDevice (j : Json) : Except String Api.LinuxDevice := do
+  pure { path := ← sField j "path", type := ← sField j "type", major := ← getInt j "major",
+         minor := ← getInt j "minor", fileMode := ← oNat j "fileMode", uid := ← oNat j "uid",
+         gid := ← oNat j "gid" }
+def decDevRule (j : Json) : Except String Oci.DeviceCgroup := do
+  pure { allow := ← getBool j "allow", type := ← sField j "type", major := ← oInt j "major",
+         minor := ← oInt j "minor", access := ← sField j "access" }
+def decOciHook (j : Json) : Except String Oci.Hook := do
+  pure { path := ← sField j "path", args := ← strs j "args", env := ← strs j "env",
+         timeout := ← oInt j "timeout" }
+def decApiHook (j : Json) : Except String Api.Hook := do
+  pure { path := ← sField j "path", args := ← strs j "args", env := ← strs j "env",
+         timeout := ← oInt j "timeout" }
+def decOciHooks (j : Json) : Except String Oci.Hooks := do
+  pure { prestart := ← arr j "prestart" decOciHook, createRuntime := ← arr j "createRuntime" decOciHook,
+         createContainer := ← arr j "createContainer" decOciHook,
+         startContainer := ← arr j "startContainer" decOciHook,
+         poststart := ← arr j "poststart" decOciHook, poststop := ← arr j "poststop" decOciHook }
+def decApiHooks (j : Json) : Except String Api.Hooks := do
+  pure { prestart := ← arr j "prestart" decApiHook, createRuntime := ← arr j "createRuntime" decApiHook,
+         createContainer := ← arr j "createContainer" decApiHook,
+         startContainer := ← arr j "startContainer" decApiHook,
+         poststart := ← arr j "poststart" decApiHook, poststop := ← arr j "poststop" decApiHook }
+def decOciRlimit (j : Json) : Except String Oci.Rlimit := do
+  pure { type := ← sField j "type", hard := ← getNat j "hard", soft := ← getNat j "soft" }
+def decApiRlimit (j : Json) : Except String Api.POSIXRlimit := do
+  pure { type := ← sField j "type", hard := ← getNat j "hard", soft := ← getNat j "soft" }
+def decOciHuge (j : Json) : Except String Oci.HugepageLimit := do
+  pure { pageSize := ← sField j "pageSize", limit := ← getNat j "limit" }
+def decApiHuge (j : Json) : Except String Api.HugepageLimit := do
+  pure { pageSize := ← sField j "pageSize", limit := ← getNat j "limit" }
+def decOciCpu (j : Json) : Except String Oci.CPU := do
+  pure { shares := ← oNat j "shares", quota := ← oInt j "quota", period := ← oNat j "period",
+         realtimeRuntime := ← oInt j "realtimeRuntime", realtimePeriod := ← oNat j "realtimePeriod",
+         cpus := ← sField j "cpus", mems := ← sField j "mems" }
+def decApiCpu (j : Json) : Except String Api.LinuxCPU := do
+  pure { shares := ← oNat j "shares", quota := ← oInt j "quota", period := ← oNat j "period",
+         realtimeRuntime := ← oInt j "realtimeRuntime", realtimePeriod := ← oNat j "realtimePeriod",
+         cpus := ← sField j "cpus", mems := ← sField j "mems" }
+def decOciMem (j : Json) : Except String Oci.Memory := do
+  pure { limit := ← oInt j "limit", reservation := ← oInt j "reservation", swap := ← oInt j "swap",
+         kernel := ← oInt j "kernel", kernelTCP := ← oInt j "kernelTCP",
+         swappiness := ← oNat j "swappiness", disableOOMKiller := ← oBool j "disableOOMKiller",
+         useHierarchy := ← oBool j "useHierarchy" }
+def decApiMem (j : Json) : Except String Api.LinuxMemory := do
+  pure { limit := ← oInt j "limit", reservation := ← oInt j "reservation", swap := ← oInt j "swap",
+         kernel := ← oInt j "kernel", kernelTcp := ← oInt j "kernelTCP",
+         swappiness := ← oNat j "swappiness", disableOomKiller := ← oBool j "disableOOMKiller",
+         useHierarchy := ← oBool j "useHierarchy" }
+
+def decSpec (j : Json) : Except String Oci.Spec := do
+  pure { annotations := ← strMap j "annotations", args := ← strs j "args", env := ← strs j "env",
+         rlimits := ← arr j "rlimits" decOciRlimit, oomScoreAdj := ← oInt j "oom",
+         mounts := ← arr j "mounts" decOciMount, devices := ← arr j "devices" decOciDevice,
+         devRules := ← arr j "devRules" decDevRule, cpu := ← decOciCpu (← getObj j "cpu"),
+         memory := ← decOciMem (← getObj j "memory"), hugepages := ← arr j "hugepages" decOciHuge,
+         unified := ← strMap j "unified", pids := ← oInt j "pids", blockio := ← oNat j "blockio",
+         rdt := ← oStr j "rdt", cgroupsPath := ← sField j "cgroupsPath",
+         rootfsPropagation := ← sField j "rootfsPropagation",
+         hooks := ← decOciHooks (← getObj j "hooks"), cdi := ← strs j "cdi" }
+
+def decRes (j : Json) : Except String Api.LinuxResources := do
+  let mem ← match oJson j "memory" with | some m => do pure (some (← decApiMem m)) | none => pure none
+  let cpu ← match oJson j "cpu" with | some m => do pure (some (← decApiCpu m)) | none => pure none
+  pure { memory := mem, cpu := cpu, hugepageLimits := ← arr j "hugepages" decApiHuge,
+         blockioClass := ← oStr j "blockio", rdtClass := ← oStr j "rdt",
+         unified := ← strMap j "unified", pids := ← oInt j "pids" }
+
+def decLinux (j : Json) : Except String Api.LinuxContainerAdjustment := do
+  let res ← match oJson j "resources" with | some r => do pure (some (← decRes r)) | none => pure none
+  pure { devices := ← arr j "devices" decApiDevice, resources := res,
+         cgroupsPath := ← sField j "cgroupsPath", oomScoreAdj := ← oInt j "oom" }
+
+def decAdj (j : Json) : Except String Adjustment := do
+  let hooks ← match oJson j "hooks" with | some h => do pure (some (← decApiHooks h)) | none => pure none
+  let linux ← match oJson j "linux" with | some h => do pure (some (← decLinux h)) | none => pure none
+  pure { annotations := ← strMap j "annotations", mounts := ← arr j "mounts" decApiMount,
+         env := ← arr j "env" (fun e => do pure { key := ← sField e "key", value := ← sField e "value" }),
+         hooks := hooks, linux := linux, rlimits := ← arr j "rlimits" decApiRlimit,
+         cdiDevices := ← strs j "cdi", args := ← strs j "args" }
+
+structure ExtIn where
+  blockio : List (Str × Nat)
+  rdt : AList Str Str
+  cdiBad : List Str
+  hostProp : AList Str Str
+  noInjector : Bool
+  noBlockio : Bool
+  noRdt : Bool
+
+def decExt (j : Json) : Except String ExtIn := do
+  let bio ← match j.getObjVal? "blockio" with
+    | .ok (Json.obj kvs) => kvs.toList.mapM fun (k, v) => do pure (S k, ← v.getNat?)
+    | _ => pure []
+  pure { blockio := bio, rdt := ← strMap j "rdt", cdiBad := ← strs j "cdiBad",
+         hostProp := ← strMap j "hostProp", noInjector := getBoolD j "noInjector",
+         noBlockio := getBoolD j "noBlockio", noRdt := getBoolD j "noRdt" }
+
+def lookupNat (l : List (Str × Nat)) (k : Str) : Option Nat :=
+  match l with | [] => none | (a, b) :: r => if a = k then some b else lookupNat r k
+
+def ExtIn.toExternals (e : ExtIn) : Externals :=
+  { injectCDI := if e.noInjector then none else some (recordingInjector e.cdiBad)
+    resolveBlockIO := if e.noBlockio then none else
+      some (fun c => match lookupNat e.blockio c with | some v => .ok v | none => .error ())
+    resolveRdt := if e.noRdt then none else
+      some (fun c => match AList.lookup e.rdt c with | some v => .ok v | none => .error ())
+    hostPropagation := fun src => match AList.lookup e.hostProp src with | some p => p | none => [] }
+
+/-! ### comparison -/
+
+/-- Go maps are compared extensionally. -/
+def alistEqv (a b : AList Str Str) : Bool :=
+  a.length == b.length && a.all (fun e => AList.lookup b e.1 == some e.2)
+
+def specEqv (a b : Oci.Spec) : Bool :=
+  alistEqv a.annotations b.annotations && alistEqv a.unified b.unified &&
+  decide ({ a with annotations := [], unified := [] } = { b with annotations := [], unified := [] })
+
+/-- names of the modelled fields in which two specs differ -/
+def diffFields (a b : Oci.Spec) : List String :=
+  (if alistEqv a.annotations b.annotations then [] else ["annotations"]) ++
+  (if a.args = b.args then [] else ["args"]) ++ (if a.env = b.env then [] else ["env"]) ++
+  (if a.rlimits = b.rlimits then [] else ["rlimits"]) ++
+  (if a.oomScoreAdj = b.oomScoreAdj then [] else ["oomScoreAdj"]) ++
+  (if a.mounts = b.mounts then [] else ["mounts"]) ++ (if a.devices = b.devices then [] else ["devices"]) ++
+  (if a.devRules = b.devRules then [] else ["devRules"]) ++ (if a.cpu = b.cpu then [] else ["cpu"]) ++
+  (if a.memory = b.memory then [] else ["memory"]) ++ (if a.hugepages = b.hugepages then [] else ["hugepages"]) ++
+  (if alistEqv a.unified b.unified then [] else ["unified"]) ++ (if a.pids = b.pids then [] else ["pids"]) ++
+  (if a.blockio = b.blockio then [] else ["blockio"]) ++ (if a.rdt = b.rdt then [] else ["rdt"]) ++
+  (if a.cgroupsPath = b.cgroupsPath then [] else ["cgroupsPath"]) ++
+  (if a.rootfsPropagation = b.rootfsPropagation then [] else ["rootfsPropagation"]) ++
+  (if a.hooks = b.hooks then [] else ["hooks"]) ++ (if a.cdi = b.cdi then [] else ["cdi"])
+
+def errName : GenError → String
+  | .cdi => "cdi" | .blockio => "blockio" | .rdt => "rdt" | .mountPropagation => "other"
+
+/-- all permutations -/
+def perms {α : Type} : List α → List (List α)
+  | [] => [[]]
+  | x :: xs => (perms xs).flatMap fun p => (List.range (p.length + 1)).map fun i => p.take i ++ x :: p.drop i
+
+/-- the iteration orders tried for a map: all permutations up to 5 entries, else rotations,
+    the reverse and a riffle -/
+def orders {α : Type} (l : List α) : List (List α) :=
+  if l.length ≤ 5 then perms l
+  else (List.range l.length).map (fun i => l.drop i ++ l.take i) ++ [l.reverse]
+
+/-! ### the error class the property allows, read off the input -/
+
+def expectedErr (s : Oci.Spec) (a : Adjustment) (e : ExtIn) : String :=
+  let res : LinuxResources := match a.resources with | some r => r | none => {}
+  if !e.noInjector && a.cdiDevices.any (fun n => e.cdiBad.contains n) then "cdi"
+  else if (match res.blockioClass with | some c => !e.noBlockio && c != [] && (lookupNat e.blockio c).isNone | none => false) then "blockio"
+  else if (match res.rdtClass with | some c => !e.noRdt && c != [] && (AList.lookup e.rdt c).isNone | none => false) then "rdt"
+  else
+    -- a mount whose (sticky) propagation request is rshared/rslave needs a host mount that shares enough
+    let rec go (prop : Str) (rootfs : Str) : List Api.Mount → Bool
+      | [] => false
+      | m :: r =>
+        if isMarked m.destination then go prop rootfs r else
+        let p := m.propagationQuery prop
+        let hp := match AList.lookup e.hostProp m.source with | some x => x | none => []
+        if p = str "rshared" && hp != str "rshared" then true
+        else if p = str "rslave" && hp != str "rshared" && hp != str "rslave" then true
+        else go p rootfs r
+    if go [] s.rootfsPropagation a.mounts then "other" else ""
+
+/-! ### coverage tags -/
+
+def patTag {ε : Type} (fam : String) (rawKey : ε → Str) (present : Str → Bool) (L : List ε) : List String :=
+  ((L.map (fun e => stripMarker (rawKey e))).eraseDups.map fun k =>
+    let ops := (L.filter (fun e => stripMarker (rawKey e) == k)).map (fun e => if isMarked (rawKey e) then 'r' else 's')
+    s!"{fam}:{String.ofList (ops.take 3)}:" ++ (if present k then "present" else "absent"))
+
+def coverTags (s : Oci.Spec) (a : Adjustment) : List String :=
+  let res : LinuxResources := match a.resources with | some r => r | none => {}
+  let cpu : LinuxCPU := match res.cpu with | some c => c | none => {}
+  let t (b : Bool) (n : String) := if b then [n] else []
+  patTag "ann" (fun e : Str × Str => e.1) (fun k => (AList.lookup s.annotations k).isSome) a.annotations ++
+  patTag "env" KeyValue.key (fun k => (Env.lookup s.env k).isSome) a.env ++
+  patTag "mnt" Api.Mount.destination (fun k => (find Oci.Mount.destination k s.mounts).isSome) a.mounts ++
+  patTag "dev" LinuxDevice.path (fun k => (find Oci.Device.path k s.devices).isSome) a.linuxDevices ++
+  t (!a.args.isEmpty) (match a.args with | [] :: _ => "args:update" | _ => "args:set") ++
+  t a.hooks.isSome "hooks" ++ t (!a.rlimits.isEmpty) "rlimits" ++ t (!a.cdiDevices.isEmpty) "cdi" ++
+  t (a.cgroupsPath != []) "cgroupsPath" ++ t a.oomScoreAdj.isSome "oom" ++
+  t cpu.shares.isSome "cpu.shares" ++ t cpu.quota.isSome "cpu.quota" ++ t cpu.period.isSome "cpu.period" ++
+  t cpu.realtimeRuntime.isSome "cpu.rtRuntime" ++ t cpu.realtimePeriod.isSome "cpu.rtPeriod" ++
+  t (cpu.cpus != []) "cpu.cpus" ++ t (cpu.mems != []) "cpu.mems" ++
+  t ((match res.memory with | some m => m.limit.isSome | none => false)) "mem.limit" ++
+  t (!res.hugepageLimits.isEmpty) "hugepages" ++ t (!res.unified.isEmpty) "unified" ++
+  t res.pids.isSome "pids" ++ t res.blockioClass.isSome "blockio" ++ t res.rdtClass.isSome "rdt" ++
+  t (a.mounts.any (fun m => m.options.any isPropagationOpt)) "mnt:propagation"
+
+def touches (a : Adjustment) : Bool :=
+  !a.annotations.isEmpty || !a.mounts.isEmpty || !a.env.isEmpty || a.hooks.isSome || a.linux.isSome ||
+  !a.rlimits.isEmpty || !a.cdiDevices.isEmpty || !a.args.isEmpty
+
+/-! ### judge -/
+
+structure Out where
+  err : String
+  spec : Oci.Spec
+
+def judge (j : Json) : Except String Verdict := do
+  let inp ← getObj j "in"
+  let obs ← getObj j "obs"
+  let kind := getStrD inp "kind"
+  let s ← decSpec (← getObj inp "spec")
+  let a ← decAdj (← getObj inp "adjust")
+  let e ← decExt (← getObj inp "ext")
+  let outs ← arr obs "outs" (fun o => do
+    let err ← getStr o "err"
+    pure ({ err := err, spec := ← decSpec (← getObj o "spec") } : Out))
+  let restSame := getBoolD obs "restSame" true
+  let panic := getStrD obs "panic"
+  let ext := e.toExternals
+  -- model (repaired code), under every iteration order of the two maps
+  let m := adjust ext s a
+  let annOrders := orders a.annotations
+  let annStable := annOrders.all fun π =>
+    alistEqv (Annotations.apply s.annotations π) (Annotations.apply s.annotations a.annotations)
+  let uni := match a.resources with | some r => r.unified | none => []
+  let uniStable := (orders uni).all fun π =>
+    alistEqv (Resources.applyUnified s.unified π) (Resources.applyUnified s.unified uni)
+  -- what the transcriptions of the code before the repairs can produce (for the diagnosis only)
+  let sameAs (us : List (Except GenError Oci.Spec)) : Bool := outs.all fun o => us.any fun u =>
+    match u with
+    | .ok x => o.err == "" && specEqv x o.spec
+    | .error ue => o.err == errName ue
+  let matchesLists := sameAs [adjustListsUnfixed ext s a]
+  let matchesUnfixed := matchesLists || sameAs (annOrders.map fun π => adjustUnfixed ext s { a with annotations := π })
+  let diag := if matchesLists then " [the result is that of generate.go without docs/fixes/C13-1.patch (removals before sets in env/devices/mounts)]"
+    else " [the results are those of generate.go before the repairs 1f50159/ad4e689/C13-1]"
+  let agreeOut := match outs, m with
+    | [o], .ok ms => o.err == "" && specEqv ms o.spec
+    | [o], .error me => o.err == errName me
+    | _, _ => false
+  let agree := agreeOut && annStable && uniStable
+  -- domain
+  let guard := Check.guardViolated s a
+  -- the property on the implementation's own results
+  let expErr := expectedErr s a e
+  let bio : Option (Str → Option Nat) := if e.noBlockio then none else some (lookupNat e.blockio)
+  let rdt : Option (Str → Option Str) := if e.noRdt then none else some (AList.lookup e.rdt)
+  let perOut : List Check.Fail := outs.flatMap fun o =>
+    if o.err != expErr then
+      [{ sig := "C13:error-class", why := s!"Adjust returned error class \"{o.err}\" where the input calls for \"{expErr}\"" }]
+    else if o.err != "" then []
+    else Check.checkAll s a o.spec (!e.noInjector) bio rdt
+  let detFail : List Check.Fail := match outs with
+    | o1 :: o2 :: _ =>
+      let d := if o1.err != o2.err then ["error"] else diffFields o1.spec o2.spec
+      [{ sig := "C13:" ++ ",".intercalate d ++ ":order-dependent",
+         why := s!"{outs.length} different results over the repeated runs of the same input; they differ in {d}" }]
+    | _ => []
+  let restFail : List Check.Fail :=
+    (if restSame then [] else [{ sig := "C13:frame:rest-of-spec", why := "a part of the spec no adjustment field names was changed" }]) ++
+    (if panic == "" then [] else [{ sig := "C13:panic", why := s!"Adjust panicked: {panic}" }])
+  let fails := perOut ++ detFail ++ restFail
+  let fails := fails.filter (fun f => !f.recorded) ++ fails.filter (fun f => f.recorded)
+  let excluded := guard.isSome
+  let spec := fails.isEmpty
+  let first := fails.head?
+  let why :=
+    if !spec && !excluded then
+      (match first with | some f => f.why | none => "") ++
+        (if matchesUnfixed && !agreeOut then diag else "")
+    else if !agree then
+      (match outs, m with
+        | [o], .ok ms => if o.err == "" then s!"model and implementation differ in {diffFields ms o.spec}" else s!"implementation failed ({o.err}), model succeeds"
+        | [o], .error me => s!"model fails ({errName me}), implementation: \"{o.err}\""
+        | _, _ => s!"{outs.length} distinct implementation results; the model is deterministic") ++
+        (if !annStable then "; MODEL annotations depend on the entry order" else "") ++
+        (if !uniStable then "; MODEL unified depends on the entry order" else "") ++
+        (if matchesUnfixed then diag else "") ++
+        (match guard with | some g => s!" [{g}]" | none => "")
+    else ""
+  let cover := [s!"kind:{kind}", if excluded then "domain:excluded" else "domain:in",
+                s!"outs:{outs.length}", s!"err:{expErr}",
+                s!"perm:ann:{a.annotations.length}", s!"perm:uni:{uni.length}"] ++
+               coverTags s a ++ (if matchesUnfixed && !agreeOut then ["impl:as-unrepaired"] else [])
+  pure { agree := agree, spec := spec || excluded, why := why, cover := cover,
+         nontrivial := touches a && !excluded, excluded := excluded,
+         sig := match guard with
+           | some g => g
+           | none => (match first with | some f => f.sig | none => ""),
+         model := Json.null }
+
 def main : IO UInt32 := runLines judge
 end Drv.C13
